@@ -9,7 +9,8 @@
 From Coq Require Import String List NArith ZArith Lia Bool Arith.
 From Coq Require Import Init.Byte.
 From FFS Require Import Base.Res Base.Bytes EthTypes.Model EthTypes.Spec EthTypes.SpecBig EthTypes.Proofs EthTypes.ProofsInt EthTypes.ProofsNum
-  EthTypes.ProofsHex EthTypes.ProofsLimit EthTypes.ProofsBig.
+  EthTypes.ProofsHex EthTypes.ProofsLimit EthTypes.ProofsBig EthTypes.ProofsBigInt EthTypes.ProofsBigCoh
+  EthTypes.ProofsBigFloat EthTypes.ProofsBigAll.
 Import ListNotations.
 
 (* ---- 1. print form: "0x" + lower-case hex digits without leading zeros, value n (all n) ---- *)
@@ -75,7 +76,9 @@ Print Assumptions C19_parse_exact.
 Theorem C19_parse_exact_boundary : forall lex (ty64 : bool) (t : bytes) (m e : Z) (l : bool) (b : bytes),
   lex_law lex -> spelling t m e l -> json_of t b ->
   (l = true ->
-     (forall q, sci_is m e q -> in_range ty64 q = true -> parse_int ty64 lex b = Ok q) /     ((forall q, sci_is m e q -> in_range ty64 q = false) -> exists err, parse_int ty64 lex b = Err err)) /  (l = false -> exists err, parse_int ty64 lex b = Err err).
+     (forall q, sci_is m e q -> in_range ty64 q = true -> parse_int ty64 lex b = Ok q) /\
+     ((forall q, sci_is m e q -> in_range ty64 q = false) -> exists err, parse_int ty64 lex b = Err err)) /\
+  (l = false -> exists err, parse_int ty64 lex b = Err err).
 Proof. exact parse_exact_lim. Qed.
 Print Assumptions C19_parse_exact_boundary.
 
@@ -114,6 +117,55 @@ Theorem C19_parse_never_wrong_any_text : forall lex (ty64 : bool) (b : bytes) (q
   exists t, (lex b = JNum t \/ lex b = JStr t) /\ go_denotes t q /\ in_range ty64 q = true.
 Proof. exact parse_sound_all. Qed.
 Print Assumptions C19_parse_never_wrong_any_text.
+
+(* the integer syntax both ways: the model of Int.SetString(s, 0) accepts EXACTLY the documented integer
+   texts (sign, 0b/0o/0x in either case, leading-zero octal, '_' separators) with their value, and
+   BigIntegerFromString returns that value whatever its size *)
+Theorem C19_int_text_iff : forall (t : bytes) (z : Z), int_set_string0 t = Some z <-> go_int t z.
+Proof. exact set_string_iff. Qed.
+Print Assumptions C19_int_text_iff.
+
+Theorem C19_int_text_accepted : forall (t : bytes) (z : Z), go_int t z -> BigIntegerFromString t = Ok z.
+Proof. exact big_from_go_int. Qed.
+Print Assumptions C19_int_text_accepted.
+
+(* floating-point texts outside the quantifier ('p' binary exponents, '+' sign, leading zeros, empty integer
+   or fraction part) both ways: such a text (one that is not an integer text: [float_only]) is accepted
+   exactly when it is within the library limits [big_limits_float] and denotes an integer, with that value;
+   within the limits a text that denotes no integer is an error, beyond them every text is *)
+Theorem C19_float_text_exact : forall f : fnum,
+  fnum_wf f = true -> float_only f = true ->
+  if big_limits_float f
+  then (forall q, sci2_is (f_mant f) (f_e10 f) (f_e2 f) q -> BigIntegerFromString (fnum_text f) = Ok q) /\
+       ((forall q, ~ sci2_is (f_mant f) (f_e10 f) (f_e2 f) q) -> exists err, BigIntegerFromString (fnum_text f) = Err err)
+  else exists err, BigIntegerFromString (fnum_text f) = Err err.
+Proof. exact float_text_exact. Qed.
+Print Assumptions C19_float_text_exact.
+
+(* The complete characterisation over ALL texts and ALL documents.  [accepts t q] (EthTypes/ProofsBigAll.v):
+   t is a documented integer text with value q, or a floating-point text that is not an integer text,
+   within the library limits, whose value is the integer q.  A value is returned exactly for those
+   texts, and it is that value; everything else is an error. *)
+Theorem C19_accepted_iff : forall (t : bytes) (q : Z), BigIntegerFromString t = Ok q <-> accepts t q.
+Proof. exact big_iff. Qed.
+Print Assumptions C19_accepted_iff.
+
+Theorem C19_parse_iff : forall lex (ty64 : bool) (b : bytes) (q : Z),
+  parse_int ty64 lex b = Ok q <->
+  exists t, (lex b = JNum t \/ lex b = JStr t) /\ accepts t q /\ in_range ty64 q = true.
+Proof. exact parse_iff. Qed.
+Print Assumptions C19_parse_iff.
+
+Theorem C19_accepts_unique : forall (t : bytes) (q q' : Z), accepts t q -> accepts t q' -> q = q'.
+Proof. exact accepts_unique. Qed.
+Print Assumptions C19_accepts_unique.
+
+(* coherence of the two specifications: a spelling of the quantifier that denotes the integer q is a
+   documented math/big text with the same value q *)
+Theorem C19_quantifier_texts_documented : forall (t : bytes) (m e q : Z),
+  denotes t m e -> sci_is m e q -> go_denotes t q.
+Proof. exact denotes_go_denotes. Qed.
+Print Assumptions C19_quantifier_texts_documented.
 
 (* the same for the text entry point (also used by the ABI input path): any sign, any size *)
 Theorem C19_big_integer_from_string_exact : forall (t : bytes) (m e : Z),
@@ -297,11 +349,30 @@ Proof.
   repeat (split; [vm_compute; reflexivity|]).
   split; [vm_compute; eauto|]. split; [vm_compute; eauto|].
   split.
-  - apply (gd_float (mkF 0 (ascii_bytes "1"%string) (Some (ascii_bytes "5"%string)) (Some (byte_of_ascii "p"%char, 0%N, ascii_bytes "1"%string))));
+  - apply (gd_float (mkF 0 (ascii_bytes "1"%string) (Some (ascii_bytes "5"%string)) (Some (x70, 0%N, ascii_bytes "1"%string))));
       vm_compute; reflexivity.
   - apply gd_int. apply (gi _ false (ascii_bytes "0x_1f"%string) 31%N); [apply gs_none|].
     apply (gim_prefix x30 x78 16%N (ascii_bytes "_1f"%string) (ascii_bytes "1f"%string) 31%N); try (vm_compute; reflexivity).
     + apply (unsep_us x5f x31); [reflexivity|vm_compute; discriminate|].
-      apply unsep_dig; [vm_compute; discriminate|]. apply unsep_dig; [vm_compute; discriminate|apply unsep_nil].
+      apply unsep_dig; [vm_compute; discriminate|apply unsep_nil].
     + discriminate.
+Qed.
+
+(* the floating-point side of the characterisation: "1.5p1" is accepted as 3 by the specification's own rules
+   (well formed, not an integer text, within the limits, 15 * 10^-1 * 2^1 = 3), "1p10000001" is beyond the limits *)
+Example C19_nonvacuous_accepts :
+  let f := mkF 0 (ascii_bytes "1"%string) (Some (ascii_bytes "5"%string)) (Some (x70, 0%N, ascii_bytes "1"%string)) in
+  let g := mkF 0 (ascii_bytes "1"%string) None (Some (x70, 0%N, ascii_bytes "10000001"%string)) in
+  fnum_text f = ascii_bytes "1.5p1"%string /\ accepts (fnum_text f) 3 /\ BigIntegerFromString (fnum_text f) = Ok 3%Z /\
+  fnum_text g = ascii_bytes "1p10000001"%string /\ big_limits_float g = false /\ (exists err, BigIntegerFromString (fnum_text g) = Err err).
+Proof.
+  cbv zeta.
+  set (f := mkF 0 (ascii_bytes "1"%string) (Some (ascii_bytes "5"%string)) (Some (x70, 0%N, ascii_bytes "1"%string))).
+  set (g := mkF 0 (ascii_bytes "1"%string) None (Some (x70, 0%N, ascii_bytes "10000001"%string))).
+  assert (A : accepts (fnum_text f) 3).
+  { right. exists f. repeat (split; [vm_compute; reflexivity|]). vm_compute. reflexivity. }
+  split; [vm_compute; reflexivity|]. split; [exact A|]. split; [apply C19_accepted_iff; exact A|].
+  split; [vm_compute; reflexivity|]. split; [vm_compute; reflexivity|].
+  pose proof (C19_float_text_exact g ltac:(vm_compute; reflexivity) ltac:(vm_compute; reflexivity)) as E.
+  replace (big_limits_float g) with false in E by (vm_compute; reflexivity). exact E.
 Qed.
